@@ -14,7 +14,6 @@ Reading of the statement that the theorems formalise
   * "the exiting thread has finished" for `p` = no thread has an activation of `p`'s hook list
     with hooks still to run (`¬ pending s p`).
 -/
-import Uniflow.Generated.Locks
 import Uniflow.Proofs.ProcessJoin
 import Uniflow.Proofs.ProcessLog
 
@@ -368,16 +367,4 @@ theorem C04.reverse_order_log_nonvacuous :
       (0, .start (.exit 0 2)), (0, .cont), (0, .cont)]
     s.log.map (·.tok) = [0, 1] ∧ s.log.map (·.kind) = [.user 5, .user 6] ∧ s.owner 0 = s.owner 1 ∧
     s.late 0 = false ∧ s.late 1 = false := by
-  decide
-
-/-! ## Step granularity tied to the source
-
-The small-step machine takes every method of `process.Process` as ONE critical section (one
-atomic step under `p.mu`). `Generated/Locks.lean` is regenerated from process.go on every run:
-every method that locks `p.mu` does so at exactly one site. -/
-open Uniflow.Generated.Locks in
-theorem C04.atomic_sections :
-    (acquireSites.filter (fun a => a.1 == "process.Process")).all (fun a => a.2.2.2 == 1) = true ∧
-    acquireSites.contains ("process.Process", "AddExitHook", "mu", 1) = true ∧
-    acquireSites.contains ("process.Process", "Exit", "mu", 1) = true := by
   decide
